@@ -455,8 +455,8 @@ fn f7(k: usize) -> impl Fn() + Send + Sync + 'static {
 }
 
 pub fn harnesses(tier: Tier) -> Vec<Harness> {
-  let b = tier.pick(2, 3);
-  let cfg = E2Cfg { max_preemptions: b, max_schedules: 3_000_000, max_steps: 3_000, time_cap: tier.pick(Duration::from_secs(40), Duration::from_secs(900)) };
+  let b = tier.pick(2, 4);
+  let cfg = E2Cfg { max_preemptions: b, max_schedules: 3_000_000, max_steps: 3_000, time_cap: tier.pick(Duration::from_secs(40), Duration::from_secs(600)) };
   let mut v = vec![];
   use SendMode::*;
   for (n, cap) in [(2usize, 1usize), (3, 1), (3, 2)] {
@@ -498,7 +498,7 @@ pub fn run(tier: Tier) -> Report {
   let mut sub = Sub::new("ready-pipe-queue", "E2");
   sub.rule = "evaluation = one complete schedule of a harness on fresh real objects; states = distinct (switch label, running task, runnable set, step) digests; non-trivial = a producer really blocked on a full pipe or two producers/consumers raced; oracle = deadlock (all tasks blocked with an item committed) / exactly-once / per-pipe FIFO / counters consistent at quiescence / rzmq's own debug assertions".into();
   let hs = harnesses(tier);
-  sub.bounds = json!({"preemption_bound": tier.pick(2, 3), "harnesses": hs.iter().map(|h| h.name.clone()).collect::<Vec<_>>()});
+  sub.bounds = json!({"preemption_bound": tier.pick(2, 4), "harnesses": hs.iter().map(|h| h.name.clone()).collect::<Vec<_>>()});
   e2::explore_all(&mut sub, hs);
   rep.add(sub);
   rep
